@@ -139,10 +139,10 @@ func c12GenTM(rng *zz.RNG, s *zz.Session, thorough bool) []string {
 	}
 	// a vector length just below bincode's own limit (2^31-1) in each vector position, with no elements behind it
 	for _, l := range []uint64{1<<31 - 1, 1 << 31, 1 << 20, 1 << 27} {
-		ok := []byte{0, 0, 0, 0}                                  // Result::Ok
-		fee := []byte{1, 0, 0, 0, 0, 0, 0, 0}                     // fee
-		ln := binary.LittleEndian.AppendUint64(nil, l)            // huge length
-		zero := []byte{0, 0, 0, 0, 0, 0, 0, 0}                    // empty vector
+		ok := []byte{0, 0, 0, 0}                                    // Result::Ok
+		fee := []byte{1, 0, 0, 0, 0, 0, 0, 0}                       // fee
+		ln := binary.LittleEndian.AppendUint64(nil, l)              // huge length
+		zero := []byte{0, 0, 0, 0, 0, 0, 0, 0}                      // empty vector
 		all(append(append(append([]byte{}, ok...), fee...), ln...)) // pre_balances
 		all(append(append(append(append([]byte{}, ok...), fee...), zero...), ln...))
 		all(append(append(append(append(append(append([]byte{}, ok...), fee...), zero...), zero...), 1), ln...)) // inner instructions
